@@ -128,7 +128,7 @@ def correspondence(ctx, rebound):
         line = rng.random() < (0.3 if tree else 0.2)
         fast = line and rng.random() < 0.5
         cfg = L.gen_cluster(rng, n=rng.choice([8, 12]) if fast else None, tree=tree, line=line,
-                            big=tree and not fast and rng.random() < 0.3, fast=fast)
+                            big=tree and not fast and rng.random() < 0.3, fast=fast, weird=not tree)
         cfg["keep"] = 1 if rng.random() < (0.2 if tree else 0.5) else 0
         cfg["nact"] = -1 if rng.random() < 0.6 else rng.randint(0, cfg["N"])
         full, simA = L.record_all(rebound, cfg)
@@ -161,7 +161,7 @@ def correspondence(ctx, rebound):
             search_info.append(cfg)
         else:
             # the walk of the model on the library's own tree (dumped through ctypes after the search)
-            forest = c15_lib.dump_tree(simA)
+            forest = c15_lib.dump_tree(simA) or []
             ba = box_args(cfg, simA)
             tail = "(%d)%%Z %s %s %s" % (cfg["seed"], vlib.fhex(simA.max_radius[1]), L.particles_from_sim(simA, 0.0), L.roots_term(forest))
             if line:
@@ -196,7 +196,7 @@ def correspondence(ctx, rebound):
     nm = ctx.scale(160, 2000)
     mterms, minfo = [], []
     for k in range(nm):
-        cfg = L.gen_cluster(rng, tree=False)
+        cfg = L.gen_cluster(rng, tree=False, weird=True)
         cfg["keep"] = rng.randrange(2)
         cfg["nact"] = -1 if rng.random() < 0.6 else rng.randint(0, cfg["N"])
         if rng.random() < 0.1:
@@ -204,8 +204,9 @@ def correspondence(ctx, rebound):
         log, cbs, sim = L.run_merge(rebound, cfg)
         exp = "(%s, %s, %s)" % (L.events(log), L.zl(L.hashes(sim) + [sim.N_active]),
                                 fl(L.state(sim) + [sim.max_radius[0], sim.max_radius[1]]))
-        term = "merge_search %s (%d)%%Z %s (%d)%%Z %s %s %s" % (bstr(cfg["keep"]), cfg["nact"], box_args(cfg, sim), cfg["seed"],
-                                                              vlib.fhex(cfg["t"]), fl(cbs), L.particles(cfg))
+        term = "merge_search %s (%d)%%Z %s (%d)%%Z %s (%s, %s) %s %s" % (
+            bstr(cfg["keep"]), cfg["nact"], box_args(cfg, sim), cfg["seed"], vlib.fhex(cfg["t"]),
+            vlib.fhex(sim._c13_mr_before[0]), vlib.fhex(sim._c13_mr_before[1]), fl(cbs), L.particles(cfg))
         mterms.append("(%s, %s)" % (term, exp))
         minfo.append(cfg)
         ctx.case(key=("merge", cfg["keep"], cfg["periodic"], cfg["N"], len(cbs)), nontrivial=len(log) > 0)
@@ -219,7 +220,7 @@ def correspondence(ctx, rebound):
     nh = ctx.scale(160, 2000)
     hterms, hinfo = [], []
     for k in range(nh):
-        cfg = L.gen_cluster(rng, tree=False)
+        cfg = L.gen_cluster(rng, tree=False, weird=True)
         eps = rng.choice([None, None, 0.5, 0.0, 1.0, 0.9])
         mcv = rng.choice([0.0, 0.0, 0.01, 1.0])
         log, orcs, sim = L.run_hardsphere(rebound, cfg, eps, mcv)
@@ -243,7 +244,7 @@ def correspondence(ctx, rebound):
         sim = L.make_sim(rebound, cfg)
         n = cfg["N"]
         kind = rng.choice(["mercurius0", "mercurius1", "mercurius1", "trace_kepler", "trace_kepler", "trace_interaction", "trace_none", "trace_full"])
-        sub = sorted(rng.sample(range(n), rng.randint(1, n)))
+        sub = sorted(rng.sample(range(n), rng.randint(1, n))) if n >= 1 else []
         if rng.random() < 0.7 and 0 not in sub:
             sub = [0] + sub
         arr = (ctypes.c_int * n)(*(sub + [0] * (n - len(sub))))
